@@ -140,6 +140,21 @@ class TFObj(TF):
         return self.s
 
 
+class ReprMeta(ht.MetadataNode):
+    """A metadata node that happens to be self-rendering (e.g. for notebooks): in a tag tree it is still only metadata."""
+
+    def _repr_html_(self):
+        return "<b>REPR-OF-METADATA</b>"
+
+    def __copy__(self):
+        return ReprMeta()
+
+
+class ReprDep(ht.HTMLDependency):
+    def _repr_html_(self):
+        return "<b>REPR-OF-DEPENDENCY</b>"
+
+
 class StrSub(str):
     """A str subclass (like htmltools' own jsx() strings): still a plain text child."""
 
@@ -294,6 +309,8 @@ def _build(r):
     if k == "obj":
         return ReprObj(r["s"])
     if k == "meta":
+        if r.get("repr"):
+            return ReprMeta()
         return ht.MetadataNode()
     if k == "none":
         return None
